@@ -382,7 +382,7 @@ _sched("C02", "Theorems over every accepted trace: the non-deferred entries of o
               "each closed before the next (seqMon, C02_seq); a `task:` entry returns only after the callee, all its descendants at any depth and all "
               "its deferred entries have finished (C02_call_sync, C02_descendants_done); a woken dedup waiter implies the shared execution is over. "
               "Loop order (list, row-major matrix) and call variables: Props.C02Vars over the Vars model, tied by domain `vars`.")
-PROPS["C02"]["domains"] = [{"name": "sched"}, {"name": "vars", "env": {"VERIF_VARS_ENVDEP": "0", "VERIF_VARS_POSTMON": "0"}}]
+PROPS["C02"]["domains"] = [{"name": "sched"}, {"name": "vars", "env": {"VERIF_VARS_ENVDEP": "0", "VERIF_VARS_POSTMON": "0"}}, {"name": "callvals"}]
 PROPS["C02"]["lean"] = "Props.C02All"
 PROPS["C02"]["prop_modules"] = ["Props.C02", "Props.C02Vars"]
 _sched("C03", "Theorems over every accepted trace: after a command failure that is not ignored no later non-deferred entry of that activation starts "
@@ -458,6 +458,14 @@ def _c19_no_value_deleted(m):
             and m["impl"].endswith(" novalue"))
 
 
+def _c02_call_values(m):
+    """C02-call-values-templated-again, one mechanism only: the monitor line of the callvals domain for a value that contains a template
+    action or the literal <no value>, and the callee holds exactly what one more pass of the real templater makes of it (or that pass
+    fails and so does the call) - tag set by the harness."""
+    return (m.get("domain") == "callvals" and m.get("case_line", "").startswith("vars.callmon ")
+            and m["impl"].endswith(" templated-again"))
+
+
 def _c19_alias_empty(m):
     """C19-forwarded-value-empty-in-global-alias, one mechanism only: the `alias` path of the cliargs domain (the command uses a GLOBAL
     variable defined as '{{.CLI_ARGS}}' / '{{.X}}') and the helper received nothing resp. two empty arguments (tag set by the harness)."""
@@ -531,6 +539,7 @@ def _c10_post_layer(m):
 
 
 FINDING_PREDICATES = {
+    "C02-call-values-templated-again": _c02_call_values,
     "C10-cli-specials-defined-after-globals": _c10_cli_specials,
     "C10-fingerprint-vars-override-user-definition": _c10_post_layer,
     "C11-dynamic-cache-ignores-env": _c11_env_cache,
